@@ -552,6 +552,8 @@ class MacroProgram(ElementProgram):
             TARGET,
         )
 
+        fill_slot = define_macro = None
+
         # metal:fill-slot
         try:
             clause = ns[METAL, 'fill-slot']
@@ -575,7 +577,8 @@ class MacroProgram(ElementProgram):
                 )
 
             slots = self._use_macro[index]
-            slots.append(nodes.FillSlot(clause, slot))
+            fill_slot = nodes.FillSlot(clause, slot)
+            slots.append(fill_slot)
 
         # metal:define-macro
         try:
@@ -591,6 +594,7 @@ class MacroProgram(ElementProgram):
                 )
 
             self._macros[clause] = slot
+            define_macro = clause
             slot = nodes.UseInternalMacro(clause)
 
         slot = wrap(
@@ -637,6 +641,16 @@ class MacroProgram(ElementProgram):
                 )
 
             ON_ERROR = partial(nodes.OnError, fallback, 'error')
+
+            # The handler is part of what the element stands for as a
+            # slot filler or as a macro.
+            if fill_slot is not None:
+                fill_slot.node = ON_ERROR(fill_slot.node)
+                ON_ERROR = skip
+            elif define_macro is not None:
+                self._macros[define_macro] = ON_ERROR(
+                    self._macros[define_macro])
+                ON_ERROR = skip
 
         clause = ns.get((META, 'interpolation'))
         if clause in ('false', 'off'):
